@@ -157,6 +157,69 @@ theorem esrch_is_quiet (cfg : Cfg) (p : Proc) (now : Int) (hst : p.state = .star
     stop cfg now .esrch { p := p } = stop cfg now .ok { p := p } := by
   rcases hst with hs | hs <;> simp [procdefs, hs, hpid]
 
+/-! ### the stop request of a shutdown: `group.stop_all()`, issued again on every main-loop pass
+
+  While supervisord shuts down or restarts, `runforever()` calls `stop_all()` of the group being stopped
+  at the top of *every* pass — so most of these calls find the member already STOPPING.  Which member
+  states `stop_all()` acts on is read from the source (`stop_all_g0..g2`: the arms of its `if`/`elif`
+  chain, regenerated from process.py on every run). -/
+
+/-- `ProcessGroupBase.stop_all` for one member, written over the arms found in the source -/
+def groupStopSrc (cfg : Cfg) (now : Int) (kr : KillRes) : S → S := guard fun s =>
+  let e : Env := { now := now }
+  if stop_all_g0 s.p cfg e then stop cfg now kr s
+  else if stop_all_g1 s.p cfg e then stop cfg now kr s
+  else if stop_all_g2 s.p cfg e then giveUp cfg now s
+  else s
+
+/-- the arms of `stop_all()` in the source are: RUNNING, STARTING (both `proc.stop()`), BACKOFF (`give_up()`) -/
+theorem stop_all_arms (p : Proc) (cfg : Cfg) (e : Env) :
+    stop_all_g0 p cfg e = (p.state == .running) ∧ stop_all_g1 p cfg e = (p.state == .starting) ∧
+    stop_all_g2 p cfg e = (p.state == .backoff) := by
+  cases hs : p.state <;> simp [stop_all_g0, stop_all_g1, stop_all_g2, hs]
+
+/-- the model's group stop (the `groupstop` operation of the correspondence, and what the daemon model
+    `Sup.stopAll` applies to every member) is the source's `stop_all()` -/
+theorem groupStop_eq_src (cfg : Cfg) (now : Int) (kr : KillRes) (s : S) :
+    groupStop cfg now kr s = groupStopSrc cfg now kr s := by
+  cases hs : s.p.state <;> simp [groupStop, groupStopSrc, guard, stop_all_g0, stop_all_g1, stop_all_g2, hs]
+
+/-- **A repeated group stop is not a new stop request**: `stop_all()` on a member that is already
+    STOPPING does nothing at all — no signal (so the stopsignal is delivered once per request, and never
+    to the killasgroup target), and the SIGKILL deadline, `killing` and the stop-report clock stay as
+    they are. -/
+theorem group_stop_skips_stopping (cfg : Cfg) (now : Int) (kr : KillRes) (s : S) (hs : s.p.state = .stopping) :
+    groupStopSrc cfg now kr s = s := by
+  simp [groupStopSrc, guard, stop_all_g0, stop_all_g1, stop_all_g2, hs]
+
+/-- **Shutdown passes never postpone the escalation**: a pass of the main loop in a shutdown — the
+    group-wide `stop_all()` (at any clock reading, with any delivery result) followed by `transition()` —
+    treats a STOPPING member exactly like a pass without the `stop_all()`; hence `sigkill_iff_due`,
+    `sigkill_when_due` and `sigkill_not_early` hold for shutdown passes with the deadline of the one
+    original request. -/
+theorem shutdown_pass_eq_pass (cfg : Cfg) (p : Proc) (now0 now mood : Int) (res : SpawnRes) (kr0 kr : KillRes)
+    (hs : p.state = .stopping) :
+    transition cfg now mood res kr (groupStop cfg now0 kr0 { p := p }) = transition cfg now mood res kr { p := p } := by
+  rw [groupStop_eq_src, group_stop_skips_stopping cfg now0 kr0 { p := p } hs]
+
+/-- any number of group stops while STOPPING, at any clock readings: the process is untouched, nothing is emitted -/
+theorem repeated_group_stop_inert (cfg : Cfg) (p : Proc) (hs : p.state = .stopping) (calls : List (Int × KillRes)) :
+    calls.foldl (fun s c => groupStop cfg c.1 c.2 s) { p := p } = { p := p } := by
+  induction calls with
+  | nil => rfl
+  | cons c cs ih =>
+    simp only [List.foldl_cons]
+    rw [groupStop_eq_src, group_stop_skips_stopping cfg c.1 c.2 { p := p } hs]
+    exact ih
+
+/-- a group stop of a live member *is* a stop request: same signal, same target, same deadline as `stop()` -/
+theorem group_stop_is_stop (cfg : Cfg) (p : Proc) (now : Int) (kr : KillRes)
+    (hst : p.state = .starting ∨ p.state = .running) :
+    groupStop cfg now kr { p := p } = stop cfg now kr { p := p } := by
+  rw [groupStop_eq_src]
+  rcases hst with hs | hs <;> simp [groupStopSrc, guard, stop_all_g0, stop_all_g1, stop_all_g2, hs]
+
+
 -- non-vacuity: a concrete RUNNING process, stopped, not yet due, then due
 def cfg0 : Cfg where
   startsecs := 1024
@@ -172,5 +235,9 @@ def p0 : Proc := { state := .running, pid := 42, laststart := 1000 }
 example : (stop cfg0 5000 .ok { p := p0 }).outs = [.ev .stopping .running 42 0 true, .kill 42 15] := by decide +kernel
 example : kills (transition cfg0 6000 1 (.ok 9) .ok { p := (stop cfg0 5000 .ok { p := p0 }).p }).outs = [] := by decide +kernel
 example : kills (transition cfg0 15240 1 (.ok 9) .ok { p := (stop cfg0 5000 .ok { p := p0 }).p }).outs = [.kill (-42) 9] := by decide +kernel
+-- a shutdown: stop_all at 5000 (the request), again at 6000 and 15240 (ignored), the pass at 15240 escalates
+example : kills (groupStop cfg0 5000 .ok { p := p0 }).outs = [.kill 42 15] := by decide +kernel
+example : kills (transition cfg0 15240 (-1) (.ok 9) .ok (groupStop cfg0 15240 .ok (groupStop cfg0 6000 .ok { p := (groupStop cfg0 5000 .ok { p := p0 }).p }))).outs
+    = [.kill (-42) 9] := by decide +kernel
 
 end Sv.Props.C04
